@@ -88,6 +88,11 @@ func Gen(r *lib.Rand, n int, base int, o Options) []*Op {
 			if o.FormatName != "" {
 				saltFormat(r, inner, o.FormatName)
 			}
+			if r.P(0.15) {
+				if _, isRef := inner["$ref"]; !isRef {
+					inner["nullable"] = true // go-openapi extension: null is accepted on top of the declared types
+				}
+			}
 			var inst any
 			switch r.Intn(10) {
 			case 0:
